@@ -107,8 +107,28 @@ def make_case(ctx, rng):
     nchrom = rng.choice([1, 1, 2])
     nvars = rng.randint(4, 12)
     kinds = rng.choice([("snv",), ("snv", "ins", "del", "mnp"), ("snv", "ins", "del"), ("ins", "del"), ("snv", "mnp")])
+    twin = rng.random() < 0.15
+    if twin:
+        nchrom, kinds = 2, ("snv",)
     sc = synth.make_scenario(rng, nchrom=nchrom, nsamples=nsamples, nvars=nvars, kinds=kinds,
                              het_fraction=rng.choice([0.6, 0.8, 1.0]))
+    if twin:
+        # twin contigs (paralogous / alternative-haplotype contigs): the second chromosome has the sequence of the first
+        # and variants at the same coordinates, about half of them with REF and ALT exchanged; the true haplotypes
+        # of the two chromosomes are independent
+        a, b_ = sc.chroms
+        seq = list(sc.ref[a])
+        vs2 = []
+        for v in sc.variants[a]:
+            if rng.random() < 0.5:
+                seq[v.pos] = v.alt
+                vs2.append(synth.Variant(v.pos, v.alt, v.ref, v.kind))
+            else:
+                vs2.append(synth.Variant(v.pos, v.ref, v.alt, v.kind))
+        sc.ref[b_] = "".join(seq)
+        sc.variants[b_] = vs2
+        for s_ in sc.samples:
+            sc.haps[s_][b_] = [rng.choice([(0, 1), (1, 0)]) if rng.random() < 0.8 else rng.choice([(0, 0), (1, 1)]) for _ in vs2]
     reads = []
     depth_mode = rng.choice(["low", "mid", "high"])
     nested = rng.random() < 0.2
@@ -125,7 +145,7 @@ def make_case(ctx, rng):
     opts = {"tag": rng.choice(["PS", "HP"]), "only_snvs": rng.random() < 0.2,
             "downsampling": rng.choice([2, 3, 4, 6, 15]),
             "samples": None, "nbam": rng.choice([1, 1, 2]), "rg_per_sample": rng.choice([1, 1, 2, 3]),
-            "mapq0": rng.random() < 0.25, "ignore_rg": nsamples == 1 and rng.random() < 0.3, "nested": nested}
+            "mapq0": rng.random() < 0.25, "ignore_rg": nsamples == 1 and rng.random() < 0.3, "nested": nested, "twin": twin}
     if opts["mapq0"]:
         # run with --mapping-quality 0 and give reads arbitrary mapping qualities incl. 0: every read must then be
         # used with its full base-quality weights
@@ -429,6 +449,8 @@ def do_runs(ctx, specs):
         ctx.tally("read_groups_per_sample", opts.get("rg_per_sample", 1))
         if opts.get("nested"):
             ctx.tally("runs_with_interleaved_components_(pairs_around_inner_reads)")
+        if opts.get("twin"):
+            ctx.tally("runs_with_twin_chromosomes_(same_sequence_and_coordinates,_REF/ALT_exchanged)")
         if opts.get("desc_gt"):
             ctx.tally("runs_with_descending_unphased_input_genotypes")
             ctx.tally("input_calls_written_1/0", len(opts["desc_gt"]))
